@@ -33,6 +33,7 @@ struct FakePeer {
     PeerId id{};
     int fd{-1};              // harness end
     std::vector<std::uint8_t> rx;   // undecoded bytes
+    std::vector<std::array<std::uint8_t, 32>> keys;   // session keys seen so far (rotation), newest last
 };
 
 struct Frame {
@@ -73,6 +74,7 @@ public:
             p->fd = sv[1];
             ::fcntl(p->fd, F_SETFL, ::fcntl(p->fd, F_GETFL, 0) | O_NONBLOCK);
         }
+        p->keys.push_back(*node->session_key(id));
         peers.push_back(std::move(p));
         return *peers.back();
     }
@@ -105,15 +107,20 @@ public:
             if (n > 0) p.rx.insert(p.rx.end(), buf, buf + n);
             else break;
         }
-        const auto key = key_of(p);
+        const auto current = key_of(p);
+        if (p.keys.empty() || p.keys.back() != current) p.keys.push_back(current);
         std::size_t off = 0;
         while (p.rx.size() - off >= 16) {
             const std::uint32_t len = (std::uint32_t(p.rx[off + 12]) << 24) | (std::uint32_t(p.rx[off + 13]) << 16) | (std::uint32_t(p.rx[off + 14]) << 8) | p.rx[off + 15];
             if (p.rx.size() - off - 16 < len) break;
             Frame f;
             std::copy(p.rx.begin() + off, p.rx.begin() + off + 12, f.nonce.begin());
-            f.plaintext = ref::chacha20_rfc(key.data(), f.nonce.data(), 0, std::span<const std::uint8_t>(p.rx.data() + off + 16, len));
-            f.message = protocol::decode_signed(std::span<const std::uint8_t>(f.plaintext.data(), f.plaintext.size()), std::span<const std::uint8_t>(key.data(), key.size()));
+            // a frame may have been sealed under a key that has since been rotated: try the newest first
+            for (auto kit = p.keys.rbegin(); kit != p.keys.rend(); ++kit) {
+                f.plaintext = ref::chacha20_rfc(kit->data(), f.nonce.data(), 0, std::span<const std::uint8_t>(p.rx.data() + off + 16, len));
+                f.message = protocol::decode_signed(std::span<const std::uint8_t>(f.plaintext.data(), f.plaintext.size()), std::span<const std::uint8_t>(kit->data(), kit->size()));
+                if (f.message) break;
+            }
             out.push_back(std::move(f));
             off += 16 + len;
         }
